@@ -58,6 +58,18 @@ def literal(rng, allow_neg=True, allow_frac=True):
 def fraction_parts(rng):
     """(numerator, denominator) with a boundary numerator (often negative) over a small denominator, for monitors that
     spell `p / q`: reduced numerators of exactly +-2^63, +-2^64 ... survive only over odd denominators."""
+    if rng.random() < 0.4:
+        # a boundary DENOMINATOR (also after scaling by a power of ten, as round(x, n) does): somewhere in the top half of a
+        # 64/128-bit word, with a numerator that leaves a remainder of at least one half
+        k = rng.choice([63, 64, 127, 128])
+        d = (2 ** (k - 1) + rng.randrange(2 ** (k - 1))) // 10 ** rng.randint(0, 6)
+        if rng.random() < 0.3:
+            d = 2 ** k - rng.randint(1, 3)
+        d = max(2, d)
+        q = rng.choice([0, 1, 7, rng.randrange(10 ** 6)])
+        r = d // 2 + rng.randrange(max(1, d - d // 2))
+        n = q * d + r
+        return (-n if rng.random() < 0.5 else n), d
     n = integers(rng)
     if rng.random() < 0.5:
         n = -n
